@@ -203,18 +203,29 @@ Section Loops.
     match xs with
     | [] => if inm then None else Some (cs, prog)
     | x :: r =>
-        let '(inm1, p0) := if inm then (true, prog)
-                           else match prog with MARK :: p => (true, p) | _ => (false, prog) end in
-        match chkf x cs p0 with
-        | Some (cs1, p1) =>
-            if inm1 then
+        (* x inside a batch (p0: the program after the batch's MARK, or the current one) *)
+        let batch (p0 : list op) :=
+          match chkf x cs p0 with
+          | Some (cs1, p1) =>
               match p1 with
               | APPENDS :: p2 => items_gen r false cs1 p2
               | _ => items_gen r true cs1 p1
               end
-            else match p1 with APPEND :: p2 => items_gen r false cs1 p2 | _ => None end
-        | None => None
-        end
+          | None => None
+          end in
+        (* x alone, followed by APPEND *)
+        let single :=
+          match chkf x cs prog with
+          | Some (cs1, p1) => match p1 with APPEND :: p2 => items_gen r false cs1 p2 | _ => None end
+          | None => None
+          end in
+        if inm then batch prog
+        else match prog with
+             | MARK :: p =>
+                 (* the MARK opens a batch - or belongs to x itself (a tuple / frozenset appended alone) *)
+                 match batch p with Some res => Some res | None => single end
+             | _ => single
+             end
     end.
 
   (* plain sequence of values (tuple members) *)
